@@ -943,3 +943,56 @@ Proof.
     - split; [apply InvA_init|]. split; [cbn [init nw]; lia | split; simpl; [lia | reflexivity]]. }
   destruct G as [_ [_ [_ P]]]. eexists. exact P.
 Qed.
+
+(* ------------------------------------------------------------------ Shutdown makes progress *)
+
+Definition weight (w : wst) : nat :=
+  match w with WExited => 0 | WDrain => 1 | WDBusy _ => 2 | WIdle => 2 | WBusy _ => 3 end.
+Definition wsum (l : list wst) : nat := fold_right (fun w a => weight w + a) 0 l.
+Definition measure (s : st) : nat := 4 * length (queue s) + wsum (ws s).
+
+Lemma wsum_setw j x l : j < length l -> wsum (setw j x l) + weight (nth j l WExited) = wsum l + weight x.
+Proof.
+  revert j; induction l as [|w l IH]; intros j Hj; simpl in Hj; [lia|].
+  destruct j as [|j]; simpl; [lia|]. specialize (IH j ltac:(lia)). lia.
+Qed.
+
+Definition worker_choice (c : choice) : bool :=
+  match c with Take _ | SeeDone _ | Finish _ | DrainTake _ | DrainEmpty _ => true | _ => false end.
+
+(* every step of a worker decreases the measure: between two submissions only finitely many
+   worker steps are possible *)
+Lemma worker_step_decreases o s c s' : worker_choice c = true -> step o s c = Some s' ->
+  measure s' < measure s.
+Proof.
+  intros W H. step_cases H; try discriminate W; unfold measure; simpl;
+  match goal with
+  | Ew : nth ?j (ws s) WExited = ?w |- context [setw ?j ?x (ws s)] =>
+      let L := fresh "L" in
+      assert (L : j < length (ws s)) by (eapply nth_lt; [exact Ew | discriminate]);
+      pose proof (wsum_setw j x (ws s) L) as Hs; rewrite Ew in Hs; simpl in Hs
+  end; try rewrite Eq; simpl; lia.
+Qed.
+
+(* while Shutdown waits in wg.Wait() the executor is never stuck: either all workers have exited
+   (Shutdown's next step is enabled) or some worker has an enabled step *)
+Lemma shutdown_not_stuck o s : InvA s -> sh s = ShWait ->
+  step o s Shut <> None \/
+  exists j, step o s (Take j) <> None \/ step o s (SeeDone j) <> None \/ step o s (Finish j) <> None \/
+            step o s (DrainTake j) <> None \/ step o s (DrainEmpty j) <> None.
+Proof.
+  intros I E. assert (D : dn s = true) by (rewrite (a_dn_sh _ I), E; reflexivity).
+  destruct (forallb is_exited (ws s)) eqn:F.
+  - left. cbn [step]. rewrite E, F. discriminate.
+  - right. assert (X : exists j, is_exited (nth j (ws s) WExited) = false).
+    { clear -F. induction (ws s) as [|w l IH]; simpl in F; [discriminate|].
+      destruct (is_exited w) eqn:Ew; simpl in F.
+      - destruct (IH F) as [j Hj]. exists (S j). exact Hj.
+      - exists 0. exact Ew. }
+    destruct X as [j Hj]. exists j. cbn [step].
+    destruct (nth j (ws s) WExited) eqn:Ew; simpl in Hj; try discriminate Hj.
+    + right. left. rewrite D. discriminate.
+    + right. right. left. discriminate.
+    + destruct (queue s); [right; right; right; right; discriminate | right; right; right; left; discriminate].
+    + right. right. left. discriminate.
+Qed.
